@@ -5,6 +5,9 @@ import (
 	"context"
 	"io"
 	"net"
+	"runtime"
+	"runtime/debug"
+	"strings"
 	"sync"
 	"time"
 
@@ -18,6 +21,7 @@ import (
 	"github.com/cossacklabs/acra/sqlparser"
 
 	"verif/internal/fix"
+	"verif/internal/hx"
 )
 
 // fakeConn is a net.Conn that serves a fixed byte string and discards what is written to it,
@@ -180,7 +184,7 @@ func splitSession(data []byte) (client, db []byte) {
 	if n > len(rest) {
 		n = len(rest)
 	}
-	return rest[:n], rest[n:]
+	return rest[:n:n], rest[n:]
 }
 
 func joinSession(client, db []byte) []byte {
@@ -189,4 +193,43 @@ func joinSession(client, db []byte) []byte {
 	}
 	out := []byte{byte(len(client) >> 8), byte(len(client))}
 	return append(append(out, client...), db...)
+}
+
+// guardClassified is hx.Guard with a hook that can give a recovered panic a class signature of its own
+// (used where one root cause surfaces in several functions).
+func guardClassified(vs *hx.Vs, what string, classify func(stack string, p interface{}) string, f func()) (panicked bool) {
+	defer func() {
+		if p := recover(); p != nil {
+			panicked = true
+			stack := string(debug.Stack())
+			if sig := classify(stack, p); sig != "" {
+				vs.Add(sig, "panic in %s: %v", what, p)
+				return
+			}
+			vs.Add("panic:"+what+"@"+acraPanicSite(), "panic in %s: %v", what, p)
+		}
+	}()
+	f()
+	return false
+}
+
+// acraPanicSite names the innermost acra function on the stack of a recovered panic (same rule as hx.Guard).
+func acraPanicSite() string {
+	pc := make([]uintptr, 64)
+	n := runtime.Callers(3, pc)
+	frames := runtime.CallersFrames(pc[:n])
+	first := ""
+	for {
+		f, more := frames.Next()
+		if strings.Contains(f.Function, "cossacklabs/acra") {
+			return f.Function[strings.LastIndex(f.Function, "/")+1:]
+		}
+		if first == "" && !strings.HasPrefix(f.Function, "runtime.") {
+			first = f.Function
+		}
+		if !more {
+			break
+		}
+	}
+	return first
 }
